@@ -1,5 +1,10 @@
 // vh: the Go side of every correspondence. Sub-commands write request lines for the Lean driver
 // and the implementation's answers, one per line, to files in -out.
+//
+// panic(nil) keeps the meaning it has in modules that declare go < 1.21 (go-co's go.mod says 1.19): recover()
+// returns nil for it, so code that tests `recover() != nil` can lose such a panic.
+//
+//go:debug panicnil=1
 package main
 
 import (
